@@ -28,6 +28,9 @@ CLAIMED = {
     "C10": ("symbolic execution of the real solve_hungarian with every matrix entry an unbounded SMT Int/Real; optimality as explicit conjunction over all matchings, discharged by z3 per path",
             "Bounded model checking: for every shape up to 3x3 (+1x4, 4x1; thorough to 4x4), both directions and EVERY matrix of that shape (unbounded ints and reals), the assignment is a matching of size min(r,c), the objective is the sum of chosen entries and no matching is better.",
             GEN_NOTE, "DESIGN.md 4/C10"),
+    "C03": ("symbolic execution of the real two-phase simplex (solve_lp/_phase1/_phase2/_pivot/_extract) with A structural and b (all reals) or c (multiples of 1/8, unbounded) symbolic; optimality via a fresh-variable z3 query / exact vertex-and-ray enumeration; interior point: exit tests from an arbitrary symbolic interior state",
+            "Bounded model checking: for every A in the bound and EVERY right-hand side (resp. every cost vector on the 1/8 lattice): OPTIMAL => tau-feasible point, objective = c.x, no feasible point better, bounded; INFEASIBLE => exactly infeasible; UNBOUNDED => feasible and improving ray; MAX_ITER only at the limit. solve_lp_interior: FEASIBLE/OPTIMAL exits are primal feasible and faithfully scored from ANY interior state (1x1..2x2), optimality gap for 1x1.",
+            GEN_NOTE + " Interior point: Newton step cut, convergence not claimed.", "DESIGN.md 4/C03"),
     "C07": ("symbolic execution of the real solve_exact_cover/_build_links/_cover/_uncover with every matrix cell a symbolic Bool and max_solutions/max_iter symbolic Ints; z3 model enumeration of exact covers as oracle",
             "Bounded model checking: every 0/1 matrix of the shapes in the bound, secondary subsets, find_all on/off; every returned selection is an exact cover, complete find_all lists all covers once, INFEASIBLE iff none, status mapping for all limit values, links restored after a complete search, cover/uncover inverse law.",
             GEN_NOTE, "DESIGN.md 4/C07"),
